@@ -153,9 +153,20 @@ def run_direct(case, res):
         if rng.random() < 0.5:
             sets.append(dict(type="box", l=(xin - margin - rng.random(n)).tolist(), u=(xin + margin + rng.random(n)).tolist()))
         P0 = [gen.make_projection(s) for s in sets]
+        if k % 2 == 1:
+            # the projectors the library itself ships (util.pball / util.pbox) for the balls and boxes: what a user writes
+            # `lambda x: pball(x, c, r)` with, and what solve() wraps the bounds in
+            P0 = [(lambda w, c=np.array(s_["c"]), r=float(s_["r"]): du.pball(w, c, r)) if s_["type"] == "ball" else
+                  ((lambda w, l=np.array(s_["l"]), u=np.array(s_["u"]): du.pbox(w, l, u)) if s_["type"] == "box" else q)
+                  for s_, q in zip(sets, P0)]
+            st["direct_calls_with_library_projectors"] = st.get("direct_calls_with_library_projectors", 0) + 1
         x0 = xin + rng.normal(size=n) * float(10.0 ** rng.uniform(-2, 1.5))
         tol = float(gen.pick(rng, [1e-10, 1e-10, 1e-9, 1e-12, 1e-14, 1e-8, 1e-6]))
         mi = int(gen.pick(rng, [100, 100, 20, 1000, 3]))
+        use_defaults = bool(k % 5 == 2)       # call without tol / max_iter: the documented defaults (1e-10, 100) are the yardstick
+        if use_defaults:
+            tol, mi = 1e-10, 100
+            st["direct_calls_with_default_tolerance"] = st.get("direct_calls_with_default_tolerance", 0) + 1
         ncalls = [0]
 
         def wrap(q):
@@ -164,7 +175,7 @@ def run_direct(case, res):
                 return q(v)
             return w
         try:
-            x = dyk([wrap(q) for q in P0], x0.copy(), max_iter=mi, tol=tol)
+            x = dyk([wrap(q) for q in P0], x0.copy()) if use_defaults else dyk([wrap(q) for q in P0], x0.copy(), max_iter=mi, tol=tol)
         except Exception as e:
             res["viol"].append(V("exception", "dykstra raised %r on input %d" % (e, k)))
             continue
